@@ -88,28 +88,36 @@ theorem rules_s2u (s : Str) : Spec.rules (s.map s2u) = Spec.rules s := by
     contains_map _ (neutral_s2u _ (by decide) (by decide)), contains_map _ (neutral_s2u _ (by decide) (by decide)),
     contains_map _ (neutral_s2u _ (by decide) (by decide)), contains_map _ (neutral_s2u _ (by decide) (by decide))]
 
-theorem affinityRules_eq (t : Str) (h : t ≠ dtNotSpecified) : affinityRules t = Spec.rules t := by
-  have hb : (t == dtNotSpecified) = false := by simpa using h
+theorem affinityRules_eq (t : Str) : affinityRules t false = Spec.rules t := by
   unfold affinityRules Spec.rules
-  simp only [hasSub_eq, hb, Bool.or_false, kINT, kCHAR, kCLOB, kTEXT, kBLOB, kREAL, kFLOA, kDOUB]
+  simp only [hasSub_eq, Bool.or_false, kINT, kCHAR, kCLOB, kTEXT, kBLOB, kREAL, kFLOA, kDOUB]
 
-theorem lookup_mem (key : Str) : ∀ (tbl : List (Str × Str)) (v : Str), lookupType key tbl = v → v ≠ dtInvalid → (key, v) ∈ tbl
+theorem lookup_mem (key : Str) : ∀ (tbl : List (Str × Str)) (v : Str), lookupType key tbl = v → v ≠ dtInvalid →
+    (key, v) ∈ tbl ∧ v ≠ dtNotSpecified
   | [], v, h, hv => by simp [lookupType] at h; exact absurd h.symm hv
   | (k, w) :: rest, v, h, hv => by
       unfold lookupType at h
-      by_cases hk : k = key
-      · subst hk
-        simp at h
-        subst h
-        simp
-      · have : (k == key) = false := by simpa using hk
-        simp only [this] at h
-        have := lookup_mem key rest v (by simpa using h) hv
-        simp [this]
+      by_cases hskip : (w == dtNotSpecified || w == dtInvalid) = true
+      · simp only [hskip, if_true] at h
+        have := lookup_mem key rest v h hv
+        exact ⟨by simp [this.1], this.2⟩
+      · simp only [hskip] at h
+        by_cases hk : k = key
+        · subst hk
+          simp at h
+          subst h
+          refine ⟨by simp, ?_⟩
+          intro e
+          apply hskip
+          simp [e]
+        · have : (k == key) = false := by simpa using hk
+          simp only [this] at h
+          have := lookup_mem key rest v (by simpa using h) hv
+          exact ⟨by simp [this.1], this.2⟩
 
-/-- table fact: for every DATA_TYPE other than NOT_SPECIFIED / INVALID the rules give the same
-affinity on the enum value as on the name it is looked up by -/
-theorem table_affinity : ∀ p ∈ DATA_TYPES, p.1 ≠ dtNotSpecified → p.2 ≠ dtInvalid → affinityRules p.2 = Spec.rules p.1 := by
+/-- table fact: for every DATA_TYPE other than the markers NOT_SPECIFIED / INVALID the rules give the
+same affinity on the enum value as on the name it is looked up by -/
+theorem table_affinity : ∀ p ∈ DATA_TYPES, p.2 ≠ dtNotSpecified → p.2 ≠ dtInvalid → affinityRules p.2 false = Spec.rules p.1 := by
   decide +kernel
 
 theorem table_keys_plain : ∀ p ∈ DATA_TYPES, '(' ∉ p.1 ∧ '\n' ∉ p.1 := by
@@ -145,22 +153,17 @@ theorem upper_stripArgs (d : Str) : (stripArgs (upper d)).map Spec.asciiUpper = 
 
 theorem affinity_invalid_branch (d : Str) (h : getDataType d = dtInvalid) :
     columnAffinity (getDataType d) (some d) = .ok (Spec.typeAffinity d) := by
-  have hns : upper d ≠ dtNotSpecified := by
-    intro e
-    unfold getDataType at h
-    rw [e] at h
-    exact absurd h (by decide +kernel)
   rw [h]
   simp only [columnAffinity, beq_self_eq_true, if_true]
-  rw [affinityRules_eq _ hns, Spec.typeAffinity, upper_eq]
+  rw [affinityRules_eq, Spec.typeAffinity, upper_eq]
 
-theorem affinity_enum_branch (d : Str) (h1 : getDataType d ≠ dtInvalid)
-    (h2 : spaceToUnderscore (stripArgs (upper d)) ≠ dtNotSpecified) :
+theorem affinity_enum_branch (d : Str) (h1 : getDataType d ≠ dtInvalid) :
     columnAffinity (getDataType d) (some d) = .ok (Spec.typeAffinity (stripArgs (upper d))) := by
   have hb : (getDataType d == dtInvalid) = false := by simpa using h1
-  simp only [columnAffinity, hb]
-  have hm := lookup_mem _ DATA_TYPES (getDataType d) rfl h1
-  have := table_affinity _ hm h2 h1
+  obtain ⟨hm, hns⟩ := lookup_mem _ DATA_TYPES (getDataType d) rfl h1
+  have hn : (getDataType d == dtNotSpecified) = false := by simpa using hns
+  simp only [columnAffinity, hb, hn]
+  have := table_affinity _ hm hns h1
   simp only at this
   rw [if_neg (by simp), this, spaceToUnderscore_eq, rules_s2u, Spec.typeAffinity, upper_stripArgs]
 
@@ -252,8 +255,7 @@ theorem stripArgs_head (cs : Str) :
     · left; rfl
   · right; right; rfl
 
-theorem affinity_eq_spec_partial (name args : Str) (h : TypeToken name args)
-    (hns : spaceToUnderscore (upper name) ≠ dtNotSpecified) :
+theorem affinity_eq_spec (name args : Str) (h : TypeToken name args) :
     declaredAffinity (name ++ args) = .ok (Spec.typeAffinity (name ++ args)) := by
   have hu : upper (name ++ args) = upper name ++ upper args := by simp [upper]
   have hclean : ∀ kw ∈ keywords, Spec.contains kw (upper args) = false := by
@@ -279,7 +281,7 @@ theorem affinity_eq_spec_partial (name args : Str) (h : TypeToken name args)
     have hstrip : stripArgs (upper (upper (name ++ args))) = upper name ++ stripArgs (upper args) := by
       rw [upper_idem, hu, stripArgs_append _ _ hnp]
     -- the lookup succeeded, so nothing of the argument list survived the regex
-    have hm := lookup_mem _ DATA_TYPES _ rfl hinv
+    have hm := (lookup_mem _ DATA_TYPES _ rfl hinv).1
     have hplain := table_keys_plain _ hm
     simp only at hplain
     have hr : stripArgs (upper args) = [] := by
@@ -304,12 +306,18 @@ theorem affinity_eq_spec_partial (name args : Str) (h : TypeToken name args)
           cases hs : stripArgs ('(' :: cs) with
           | nil => rw [hs] at h2; simp at h2
           | cons x xs => rw [hs] at h2; simp at h2; subst h2; simp [s2u]
-    have hkey : spaceToUnderscore (stripArgs (upper (upper (name ++ args)))) ≠ dtNotSpecified := by
-      rw [hstrip, hr, List.append_nil]; exact hns
-    rw [affinity_enum_branch _ hinv hkey, hstrip, hr, List.append_nil, Spec.typeAffinity, ← upper_eq, upper_idem, hspec]
+    rw [affinity_enum_branch _ hinv, hstrip, hr, List.append_nil, Spec.typeAffinity, ← upper_eq, upper_idem, hspec]
 
-theorem affinity_counterexample :
-    declaredAffinity dtNotSpecified = .ok .blob ∧ Spec.typeAffinity dtNotSpecified = .numeric := by
+/-- the former counterexample: NOT_SPECIFIED as a type name now gets SQLite's NUMERIC -/
+theorem affinity_not_specified : declaredAffinity dtNotSpecified = .ok .numeric := by
+  rfl
+
+def dateInt : Str := ['D','A','T','E','(','I','N','T',')']
+
+/-- outside SQLite's grammar the enum detour still differs: the argument list is cut off before the
+rules run, SQLite scans the whole text -/
+theorem affinity_outside_grammar :
+    declaredAffinity dateInt = .ok .numeric ∧ Spec.typeAffinity dateInt = .integer := by
   constructor
   · rfl
   · decide +kernel
@@ -347,14 +355,14 @@ theorem closeGo_balanced : ∀ (body : Str) (d d' : Nat) (prev : Char) (idx : Na
             rw [hp]; simp [Nat.add_assoc, Nat.add_comm 1]
         · have e2 : (c == ')') = false := by simpa using h2
           simp only [e2] at h
-          by_cases h3 : (c == '-' || c == '/' || c == '\'' || c == '"' || c == '`') = true
+          by_cases h3 : (c == '-' || c == '/' || c == '\'' || c == '"' || c == '`' || c == '[') = true
           · simp [h3] at h
           · simp only [h3] at h
             simp only [Bool.or_eq_true, not_or, Bool.not_eq_true] at h3
-            obtain ⟨⟨⟨⟨a1, a2⟩, a3⟩, a4⟩, a5⟩ := h3
+            obtain ⟨⟨⟨⟨⟨a1, a2⟩, a3⟩, a4⟩, a5⟩, a6⟩ := h3
             obtain ⟨p, hp⟩ := closeGo_balanced cs d d' c (idx + 1) tl (by simpa using h)
             refine ⟨p, ?_⟩
-            simp only [List.cons_append, closeGo, ne_eq, not_true_eq_false, if_false, e1, e2, a1, a2, a3, a4, a5]
+            simp only [List.cons_append, closeGo, ne_eq, not_true_eq_false, if_false, e1, e2, a1, a2, a3, a4, a5, a6]
             rw [hp]; simp [Nat.add_assoc, Nat.add_comm 1]
 
 theorem closing_paren_balanced (body rest : Str) (h : Spec.Ddl.balance 0 body = some 0) :
@@ -478,43 +486,67 @@ theorem collapse_word (w : Str) (hw : Ident w) : collapse isSpace w = w := by
   have := collapseGo_word isSpace w [] (fun c hc => ident_not_space c (hw c hc))
   simpa [collapse, collapseGo] using this
 
-theorem collapse_two (a b : Str) (ha : Ident a) (hb : Ident b) (hne : b ≠ []) :
-    collapse isSpace (a ++ ' ' :: b) = a ++ ' ' :: b := by
-  unfold collapse
-  rw [collapseGo_word isSpace a _ (fun c hc => ident_not_space c (ha c hc))]
-  cases b with
+theorem collapseGo_run (p : Char → Bool) (x : Char) (r : Str) (hx : p x = false) :
+    ∀ (ws : Str) (c : Char) (m : Bool), (∀ w ∈ ws, p w = true) →
+      collapseGo p (some (c, m)) (ws ++ x :: r) = (if m || !ws.isEmpty then ' ' else c) :: x :: collapseGo p none r
+  | [], c, m, _ => by simp [collapseGo, hx]
+  | w :: ws, c, m, h => by
+      have hw := h w (by simp)
+      have ih := collapseGo_run p x r hx ws c true (fun v hv => h v (by simp [hv]))
+      simp only [List.cons_append, collapseGo, hw, if_true, ih]
+      simp
+
+/-- what a whitespace run between two tokens becomes: one space if it has two or more characters,
+otherwise the character itself -/
+def sepOf (ws : Str) : Char := match ws with
+  | [w] => w
+  | _ => ' '
+
+theorem sepOf_space (ws : Str) (hne : ws ≠ []) (h : ∀ w ∈ ws, isSpace w = true) : isSpace (sepOf ws) = true := by
+  cases ws with
   | nil => exact absurd rfl hne
+  | cons w rest =>
+      cases rest with
+      | nil => exact h w (by simp)
+      | cons v rest' => show isSpace ' ' = true; decide
+
+theorem collapse_sep (a ws b : Str) (ha : Ident a) (hws : ∀ w ∈ ws, isSpace w = true) (hne : ws ≠ [])
+    (hb : Ident b) (hbne : b ≠ []) :
+    collapse isSpace (a ++ ws ++ b) = a ++ sepOf ws :: b := by
+  unfold collapse
+  rw [List.append_assoc, collapseGo_word isSpace a _ (fun c hc => ident_not_space c (ha c hc))]
+  cases b with
+  | nil => exact absurd rfl hbne
   | cons x xs =>
       have hx := ident_not_space x (hb x (by simp))
-      have := collapseGo_word isSpace xs [] (fun c hc => ident_not_space c (hb c (by simp [hc])))
-      simp only [List.append_nil] at this
-      have hs : isSpace ' ' = true := by decide
-      simp [collapseGo, hs, hx, this]
+      have hxs := collapseGo_word isSpace xs [] (fun c hc => ident_not_space c (hb c (by simp [hc])))
+      simp only [List.append_nil] at hxs
+      have hnone : collapseGo isSpace none xs = xs := by simpa [collapseGo] using hxs
+      match ws, hne, hws with
+      | [w], _, h =>
+          have hw := h w (by simp)
+          simp [collapseGo, hw, hx, hnone, sepOf]
+      | w :: v :: rest, _, h =>
+          have hw := h w (by simp)
+          have := collapseGo_run isSpace x xs hx (v :: rest) w false (fun u hu => h u (by simp [hu]))
+          simp only [List.cons_append] at this
+          have step : collapseGo isSpace none (w :: v :: (rest ++ x :: xs)) =
+              collapseGo isSpace (some (w, false)) (v :: (rest ++ x :: xs)) := by
+            rw [collapseGo]; simp [hw]
+          simp only [List.cons_append]
+          rw [step, this, hnone]
+          simp [sepOf]
 
-theorem findSub_space (r : Str) : ∀ w : Str, (∀ c ∈ w, c ≠ ' ') → findSub spaceStr (w ++ ' ' :: r) = some w.length
-  | [], _ => by simp [findSub, spaceStr]
+theorem takeWhile_word (p : Char → Bool) (sep : Char) (b : Str) (hsep : p sep = false) :
+    ∀ a : Str, (∀ c ∈ a, p c = true) → (a ++ sep :: b).takeWhile p = a
+  | [], _ => by simp [List.takeWhile, hsep]
   | c :: cs, h => by
-      have hc : (' ' == c) = false := by
-        have := h c (by simp)
-        simpa using fun e : ' ' = c => this e.symm
-      have ih := findSub_space r cs (fun d hd => h d (by simp [hd]))
-      unfold spaceStr at ih ⊢
-      simp only [List.cons_append, findSub, List.isPrefixOf, hc, Bool.false_and, ih]
-      simp
+      simp [List.takeWhile, h c (by simp), takeWhile_word p sep b hsep cs (fun d hd => h d (by simp [hd]))]
 
-theorem findSub_space_none : ∀ w : Str, (∀ c ∈ w, c ≠ ' ') → findSub spaceStr w = none
-  | [], _ => by simp [findSub, spaceStr]
+theorem takeWhile_all (p : Char → Bool) : ∀ a : Str, (∀ c ∈ a, p c = true) → a.takeWhile p = a
+  | [], _ => rfl
   | c :: cs, h => by
-      have hc : (' ' == c) = false := by
-        have := h c (by simp)
-        simpa using fun e : ' ' = c => this e.symm
-      have ih := findSub_space_none cs (fun d hd => h d (by simp [hd]))
-      unfold spaceStr at ih ⊢
-      simp only [findSub, List.isPrefixOf, hc, Bool.false_and, ih]
-      simp
-
-theorem ident_ne_space (w : Str) (hw : Ident w) : ∀ c ∈ w, c ≠ ' ' :=
-  fun c hc => ident_ne c ' ' (hw c hc) (by decide)
+      simp [List.takeWhile, h c (by simp), takeWhile_all p cs (fun d hd => h d (by simp [hd]))]
 
 theorem openQuote_ident (c : Char) (h : isIdentChar c = true) : openQuoteClose c = none := by
   have h1 := ident_ne c '`' h (by decide)
@@ -523,30 +555,35 @@ theorem openQuote_ident (c : Char) (h : isIdentChar c = true) : openQuoteClose c
   have h4 := ident_ne c '"' h (by decide)
   simp [openQuoteClose, h1, h2, h3, h4]
 
-theorem nameAndRest_two (a b : Str) (ha : Ident a) (hane : a ≠ []) (hb : Ident b) :
-    columnNameAndRest (a ++ ' ' :: b) = .ok (a, b) := by
+theorem nameAndRest_two (a b : Str) (sep : Char) (hsep : isSpace sep = true) (ha : Ident a) (hane : a ≠ []) (hb : Ident b) :
+    columnNameAndRest (a ++ sep :: b) = .ok (a, b) := by
+  have htw : ((a ++ sep :: b).takeWhile fun x => !isSpace x) = a :=
+    takeWhile_word _ sep b (by simp [hsep]) a (fun c hc => by simp [ident_not_space c (ha c hc)])
   cases a with
   | nil => exact absurd rfl hane
   | cons c cs =>
       have hq := openQuote_ident c (ha c (by simp))
-      have hf := findSub_space b (c :: cs) (ident_ne_space _ ha)
-      simp only [List.cons_append] at hf
-      simp only [columnNameAndRest, List.cons_append, hq, hf]
-      have e1 : (c :: (cs ++ ' ' :: b)).take (c :: cs).length = c :: cs := by
-        rw [show c :: (cs ++ ' ' :: b) = (c :: cs) ++ ' ' :: b by rfl, List.take_left']
+      have e1 : (c :: (cs ++ sep :: b)).take (c :: cs).length = c :: cs := by
+        rw [show c :: (cs ++ sep :: b) = (c :: cs) ++ sep :: b by rfl, List.take_left']
         rfl
-      have e2 : (c :: (cs ++ ' ' :: b)).drop ((c :: cs).length + 1) = b := by
-        rw [show c :: (cs ++ ' ' :: b) = ((c :: cs) ++ [' ']) ++ b by simp, List.drop_left']
+      have e2 : (c :: (cs ++ sep :: b)).drop ((c :: cs).length + 1) = b := by
+        rw [show c :: (cs ++ sep :: b) = ((c :: cs) ++ [sep]) ++ b by simp, List.drop_left']
         simp
-      rw [e1, e2, strip_word b hb]
+      simp only [List.cons_append] at htw
+      simp only [columnNameAndRest, List.cons_append, hq, htw]
+      have hn1 : ((c :: cs).length != 0) = true := by simp
+      have hn2 : ((c :: cs).length != (c :: (cs ++ sep :: b)).length) = true := by simp
+      simp only [hn1, hn2, Bool.and_self, if_true, e1, e2, strip_word b hb]
 
 theorem nameAndRest_one (a : Str) (ha : Ident a) (hane : a ≠ []) : columnNameAndRest a = .ok (a, []) := by
+  have htw : (a.takeWhile fun x => !isSpace x) = a :=
+    takeWhile_all _ a (fun c hc => by simp [ident_not_space c (ha c hc)])
   cases a with
   | nil => exact absurd rfl hane
   | cons c cs =>
       have hq := openQuote_ident c (ha c (by simp))
-      have hf := findSub_space_none (c :: cs) (ident_ne_space _ ha)
-      simp only [columnNameAndRest, hq, hf]
+      simp only [columnNameAndRest, hq, htw]
+      simp
 
 theorem nextSegGo_word : ∀ (w : Str) (idx : Nat), w ≠ [] → Ident w → nextSegGo idx w = .ok (idx + w.length - 1)
   | [], _, h, _ => absurd rfl h
@@ -606,22 +643,22 @@ theorem upperC_nonupper (c x : Char) (hx : ¬(65 ≤ x.toNat ∧ x.toNat ≤ 90)
     omega
   · exact h
 
-theorem columnKeywords_split : Spec.Ddl.columnKeywords = COLUMN_PREFACES ++ [['N','U','L','L'], ['G','E','N','E','R','A','T','E','D'], ['A','S']] := rfl
+theorem columnKeywords_eq : Spec.Ddl.columnKeywords = COLUMN_PREFACES := rfl
 
 theorem tableKeywords_eq : Spec.Ddl.tableKeywords = TABLE_PREFACES := rfl
 
 theorem segmentLoop_end (fuel : Nat) (d : Option Str) (dt : Str) : segmentLoop fuel [] d dt = .ok (d, dt, false) := by
   cases fuel <;> simp [segmentLoop]
 
-theorem segmentLoop_word (t : Str) (ht : Ident t) (hlen : 2 ≤ t.length)
+theorem segmentLoop_word (t : Str) (ht : Ident t) (hne : t ≠ [])
     (hkw : beginsWithKeyword Spec.Ddl.columnKeywords t = false) (fuel : Nat) :
     segmentLoop (fuel + 1) t none dtNotSpecified = .ok (some (upper t), getDataType (upper t), false) := by
-  have hne : t ≠ [] := by intro e; subst e; simp at hlen
+  have hlen : 1 ≤ t.length := by cases t with
+    | nil => exact absurd rfl hne
+    | cons _ _ => simp
   have hpre : isPreface COLUMN_PREFACES t = .ok false := by
     apply isPreface_false t (fun c hc => ident_ascii c (ht c hc))
-    rw [columnKeywords_split] at hkw
-    simp only [beginsWithKeyword, List.any_append, Bool.or_eq_false_iff] at hkw
-    simpa [beginsWithKeyword] using hkw.1
+    rw [← columnKeywords_eq]; exact hkw
   have hseg : nextSegmentEnd t = .ok (t.length - 1) := by
     cases t with
     | nil => exact absurd rfl hne
@@ -637,11 +674,10 @@ theorem segmentLoop_word (t : Str) (ht : Ident t) (hlen : 2 ≤ t.length)
     rw [squeeze_word '(' t (fun c hc => ⟨ident_ne c '(' (ht c hc) (by decide), ident_not_space c (ht c hc)⟩),
       squeeze_word ')' t (fun c hc => ⟨ident_ne c ')' (ht c hc) (by decide), ident_not_space c (ht c hc)⟩),
       strip_word t ht]
-  have h0 : (t.length - 1 == 0) = false := by simp; omega
-  have h1 : decide (t.length - 1 > t.length) = false := by simp
+  have h1 : ¬ (t.length - 1 > t.length) := by omega
   rw [segmentLoop]
   have hie : t.isEmpty = false := by cases t <;> simp_all
-  simp only [hie, Bool.false_eq_true, if_false, hseg, bind, Except.bind, h0, h1, Bool.or_self, htake, hpre,
+  simp only [hie, Bool.false_eq_true, if_false, hseg, bind, Except.bind, h1, htake, hpre,
     Bool.not_false, if_true, hdrop, hsq, segmentLoop_end]
 
 theorem strip_ends (x : Str) (c l : Char) (cs xs : Str) (h1 : x = c :: cs) (h2 : x = xs ++ [l])
@@ -659,6 +695,44 @@ theorem s2u_upper_word (t : Str) (ht : Ident t) : spaceToUnderscore (upper t) = 
   have : upperC c0 ≠ ' ' := fun e => ident_ne c0 ' ' (ht c0 hc0) (by decide) (upperC_nonupper c0 ' ' (by decide) e)
   simp [s2u, this]
 
+theorem space_not_comment (c : Char) (h : isSpace c = true) : c ≠ '/' ∧ c ≠ '-' := by
+  constructor
+  · rintro rfl; revert h; decide
+  · rintro rfl; revert h; decide
+
+/-- name, any non-empty run of whitespace, one-word type -/
+theorem parseColumn_ws (name ws t : Str) (hname : Ident name) (hnne : name ≠ []) (ht : Ident t) (htne : t ≠ [])
+    (hws : ∀ w ∈ ws, isSpace w = true) (hwne : ws ≠ [])
+    (hkw : beginsWithKeyword Spec.Ddl.columnKeywords t = false) :
+    parseColumn (name ++ ws ++ t) =
+      .ok { name := name, derived := some (upper t), dataType := getDataType (upper t),
+            affinity := Spec.typeAffinity t, hasConstraints := false } := by
+  have haff := affinity_eq_spec t []
+    ⟨fun hm => ident_ne '(' '(' (ht '(' hm) (by decide) rfl, Or.inl rfl, by decide⟩
+  simp only [List.append_nil, declaredAffinity] at haff
+  have hall : ∀ c ∈ name ++ ws ++ t, c ≠ '/' ∧ c ≠ '-' := by
+    intro c hc
+    simp only [List.mem_append] at hc
+    rcases hc with (hc | hc) | hc
+    · exact ⟨ident_ne c '/' (hname c hc) (by decide), ident_ne c '-' (hname c hc) (by decide)⟩
+    · exact space_not_comment c (hws c hc)
+    · exact ⟨ident_ne c '/' (ht c hc) (by decide), ident_ne c '-' (ht c hc) (by decide)⟩
+  have h1 := stripColumnComments_plain (name ++ ws ++ t) ((name ++ ws ++ t).length + 1) (by omega) hall
+  have hstrip : strip (name ++ ws ++ t) = name ++ ws ++ t := by
+    obtain ⟨c, cs, hcs⟩ : ∃ c cs, name = c :: cs := by
+      cases name with
+      | nil => exact absurd rfl hnne
+      | cons c cs => exact ⟨c, cs, rfl⟩
+    have hl := List.dropLast_concat_getLast htne
+    apply strip_ends (name ++ ws ++ t) c (t.getLast htne) (cs ++ ws ++ t) (name ++ ws ++ t.dropLast)
+    · rw [hcs]; rfl
+    · rw [List.append_assoc (name ++ ws), hl]
+    · exact ident_not_space c (hname c (by rw [hcs]; simp))
+    · exact ident_not_space _ (ht _ (List.getLast_mem htne))
+  simp only [parseColumn, h1, bind, Except.bind, hstrip, collapse_sep name ws t hname hws hwne ht htne,
+    nameAndRest_two name t (sepOf ws) (sepOf_space ws hwne hws) hname hnne ht,
+    segmentLoop_word t ht htne hkw t.length, haff]
+
 theorem parseColumn_simple (d : ColDef) (h : Simple d = true) :
     ∃ col, parseColumn (renderCol d) = .ok col ∧ col.name = d.name ∧ col.affinity = d.affinity := by
   obtain ⟨name, type⟩ := d
@@ -675,39 +749,27 @@ theorem parseColumn_simple (d : ColDef) (h : Simple d = true) :
         nameAndRest_one name hname hnne, segmentLoop_end]
       rfl
   | some t =>
-      simp only [Bool.and_eq_true, Bool.not_eq_true', List.all_eq_true, decide_eq_true_eq, bne_iff_ne, ne_eq] at hty
-      obtain ⟨⟨⟨⟨htne, htid⟩, hlen⟩, hkw⟩, hns⟩ := hty
+      simp only [Bool.and_eq_true, Bool.not_eq_true', List.all_eq_true] at hty
+      obtain ⟨⟨htne, htid⟩, hkw⟩ := hty
       have ht : Ident t := htid
       have htne' : t ≠ [] := by intro e; subst e; simp at htne
-      have hns' : spaceToUnderscore (upper t) ≠ dtNotSpecified := by
-        rw [s2u_upper_word t ht, upper_eq]; exact hns
-      have haff := affinity_eq_spec_partial t []
-        ⟨fun hm => ident_ne '(' '(' (ht '(' hm) (by decide) rfl, Or.inl rfl, by decide⟩ hns'
-      simp only [List.append_nil, declaredAffinity] at haff
-      refine ⟨{ name := name, derived := some (upper t), dataType := getDataType (upper t),
-                affinity := Spec.typeAffinity t, hasConstraints := false }, ?_, rfl, ?_⟩
-      · have hall : ∀ c ∈ name ++ ' ' :: t, c ≠ '/' ∧ c ≠ '-' := by
-          intro c hc
-          simp only [List.mem_append, List.mem_cons] at hc
-          rcases hc with hc | rfl | hc
-          · exact ⟨ident_ne c '/' (hname c hc) (by decide), ident_ne c '-' (hname c hc) (by decide)⟩
-          · exact ⟨by decide, by decide⟩
-          · exact ⟨ident_ne c '/' (ht c hc) (by decide), ident_ne c '-' (ht c hc) (by decide)⟩
-        have h1 := stripColumnComments_plain (name ++ ' ' :: t) ((name ++ ' ' :: t).length + 1) (by omega) hall
-        have hstrip : strip (name ++ ' ' :: t) = name ++ ' ' :: t := by
-          obtain ⟨c, cs, hcs⟩ : ∃ c cs, name = c :: cs := by
-            cases name with
-            | nil => exact absurd rfl hnne
-            | cons c cs => exact ⟨c, cs, rfl⟩
-          have hl := List.dropLast_concat_getLast htne'
-          apply strip_ends (name ++ ' ' :: t) c (t.getLast htne') (cs ++ ' ' :: t) (name ++ ' ' :: t.dropLast)
-          · rw [hcs]; rfl
-          · rw [List.append_assoc, List.cons_append, hl]
-          · exact ident_not_space c (hname c (by rw [hcs]; simp))
-          · exact ident_not_space _ (ht _ (List.getLast_mem htne'))
-        simp only [renderCol, parseColumn, h1, bind, Except.bind, hstrip, collapse_two name t hname ht htne',
-          nameAndRest_two name t hname hnne ht, segmentLoop_word t ht hlen hkw t.length, haff]
-      · simp [ColDef.affinity, Spec.columnAffinity, htne']
+      have := parseColumn_ws name [' '] t hname hnne ht htne' (by decide) (by simp) hkw
+      refine ⟨_, by simpa [renderCol] using this, rfl, ?_⟩
+      simp [ColDef.affinity, Spec.columnAffinity, htne']
+
+/-- the same with any non-empty whitespace run between name and type -/
+theorem parseColumn_simple_ws (d : ColDef) (h : Simple d = true) (t : Str) (hty : d.type = some t)
+    (ws : Str) (hwne : ws ≠ []) (hws : ∀ w ∈ ws, isSpace w = true) :
+    ∃ col, parseColumn (d.name ++ ws ++ t) = .ok col ∧ col.name = d.name ∧ col.affinity = d.affinity := by
+  obtain ⟨name, type⟩ := d
+  simp only at hty
+  subst hty
+  simp only [Simple, Bool.and_eq_true, isIdent, Bool.not_eq_true', List.all_eq_true] at h
+  obtain ⟨⟨⟨hne, hid⟩, _⟩, ⟨htne, htid⟩, hkw⟩ := h
+  have hnne : name ≠ [] := by intro e; subst e; simp at hne
+  have htne' : t ≠ [] := by intro e; subst e; simp at htne
+  refine ⟨_, parseColumn_ws name ws t hid hnne htid htne' hws hwne hkw, rfl, ?_⟩
+  simp [ColDef.affinity, Spec.columnAffinity, htne']
 
 /-! ### the scanner on rendered bodies -/
 
@@ -794,7 +856,7 @@ theorem renderCol_head (d : ColDef) (h : Simple d = true) :
       cases type with
       | none => exact ⟨c, cs, rfl, hid c (by simp), fun x hx => Or.inl (hid x hx)⟩
       | some t =>
-          simp only [Bool.and_eq_true, Bool.not_eq_true', List.all_eq_true, decide_eq_true_eq, bne_iff_ne, ne_eq] at hty
+          simp only [Bool.and_eq_true, Bool.not_eq_true', List.all_eq_true] at hty
           refine ⟨c, cs ++ ' ' :: t, rfl, hid c (by simp), ?_⟩
           intro x hx
           simp only [renderCol, List.mem_append] at hx
@@ -803,7 +865,7 @@ theorem renderCol_head (d : ColDef) (h : Simple d = true) :
           · simp only [List.mem_cons] at hx
             rcases hx with rfl | hx
             · exact Or.inr rfl
-            · exact Or.inl (hty.1.1.1.2 x hx)
+            · exact Or.inl (hty.1.2 x hx)
 
 theorem processDefinition_simple (st : ScanState) (pre : Str) (hpre : pre = [] ∨ pre = [' ']) (d : ColDef)
     (h : Simple d = true) (htc : st.tcFound = false) :
@@ -910,5 +972,22 @@ theorem split_render (ds : List ColDef) (hne : ds ≠ []) (h : ∀ d ∈ ds, Sim
   refine ⟨st, by simpa using h1, h3, ?_, ?_⟩
   · rw [List.map_reverse, h4]; simp
   · rw [List.map_reverse, h5]; simp
+
+/-- SQL spelling of a name inside double quotes: every `"` doubled -/
+def escapeDq : Str → Str
+  | [] => []
+  | c :: cs => if c == '"' then '"' :: '"' :: escapeDq cs else c :: escapeDq cs
+
+theorem columns_counterexample :
+    ¬ ∀ (name : Str), name ≠ [] →
+      ∃ col, parseColumn ('"' :: escapeDq name ++ ['"']) = .ok col ∧ col.name = name := by
+  intro h
+  obtain ⟨col, h1, h2⟩ := h ['x', '"', 'y'] (by decide)
+  have h3 : (parseColumn ('"' :: escapeDq ['x', '"', 'y'] ++ ['"'])).toOption.map (·.name) = some ['x'] := by
+    decide +kernel
+  rw [h1] at h3
+  simp only [Except.toOption, Option.map_some, Option.some.injEq] at h3
+  rw [h2] at h3
+  exact absurd h3 (by decide)
 
 end SqliteDissect.Proofs.Schema
